@@ -11,7 +11,10 @@ fn render(k: usize, case: &Value) -> (String, Vec<String>) {
     let marker = case["marker"].as_bool().unwrap_or(false);
     let mut ids = vec![];
     let item = |i: usize, n: i64, ids: &mut Vec<String>| {
-        let id = format!("it{i}");
+        // the identifiers are it0, it1, ..; every fifth type spells them like Rust reserved words or with a hyphen, which the
+        // generator has to rename and to keep recoverable through an identifier annotation
+        const ODD: [&str; 8] = ["type", "final", "abstract", "in", "virtual", "dark-red", "x-1", "self"];
+        let id = if k % 5 == 3 { ODD[i % ODD.len()].to_string() } else { format!("it{i}") };
         ids.push(id.clone());
         if n == NONUM { id } else { format!("{id}({n})") }
     };
